@@ -373,6 +373,32 @@ def _opts(subj):
     return tag or '-'
 
 
+def _check_unfitted_or_complete(ctx, model, subj, data, state, d):
+    """After an interrupted first fit the object is either unfitted (every query raises
+    NotFittedError) or - the exception came after the last state change - a completely fitted
+    model, i.e. observably identical to a fresh object fitted on the same data.  Anything in
+    between (answers from half-updated state, other exceptions) is the violation."""
+    kind = subj['kind']
+    outs = []
+    for name, thunk in obs.misuse_calls(model, kind, d):
+        with sterile(5), Poison('zero'):
+            outs.append((name, outcome_class(outcome(thunk))))
+        ctx.stats['misuse_calls'] += 1
+    if all(oc == 'NotFittedError' for _, oc in outs):
+        return
+    twin = _fresh(subj)
+    o = _fit(twin, subj, data, state, 'zero', 0, False)
+    if o[0] == 'ok' and not obs.diff(obs.observe(model, kind, data), obs.observe(twin, kind, data)):
+        ctx.probes['fit_interrupted_after_its_last_state_change'] += 1
+        return
+    bad = [(n, oc) for n, oc in outs if oc != 'NotFittedError']
+    ctx.violate('O2_interrupted_first_fit_leaves_unfitted_or_complete',
+                _subject_name(subj, 'fit'),
+                'after an interrupted first fit the object is neither unfitted nor equal to a '
+                'fitted one: %s' % bad[:4], cls=zoo.short(subj['cls']), opts=_opts(subj),
+                got=sorted(set(oc for _, oc in bad)))
+
+
 def _check_unfitted(ctx, model, subj, where, d=3):
     """O2 on an object that must be unfitted."""
     kind = subj['kind']
@@ -453,7 +479,7 @@ def _execute(run, ctx, subj, kind, cls_short, pristine):
                         # a fresh object whose only fit never completed is an unfitted object
                         ctx.probes['first_fit_interrupted_then_misuse'] += 1
                         d_ = data.shape[1] if kind in ('gmv', 'vine') else 3
-                        _check_unfitted(ctx, live, subj, 'after an interrupted first fit', d_)
+                        _check_unfitted_or_complete(ctx, live, subj, data, op['state'], d_)
                 n_fit_calls += 1
                 seq.append('interrupted:' + outcome_class(o))
                 ctx.event('fit_interrupted', outcome_class(o), bool(tr.fired))
